@@ -69,7 +69,8 @@ def mkIntervals (seq : Array Compress.Base) (k p m : Nat) : List (Nat × MinPos)
 def scan (seq : Array Compress.Base) (score : Compress.Seq → Nat) (k p : Nat) : Option (List Iv) :=
   let m := seq.size
   if k ≤ m ∧ m < 2 ^ Gen.mspMaxLenLog ∧ p ≤ k then
-    let sc := fun q => score (window seq p q)
+    -- the score is cached in `MinPos.val`, whose width is extracted from the source
+    let sc := fun q => score (window seq p q) % 2 ^ Gen.mspScoreBits
     some (mkIntervals seq k p m (minPositions sc (k - p) (m - k + 1)).reverse)
   else none
 
